@@ -392,3 +392,36 @@ Example C02_convergence_nD_nonvacuous :
   (forall c a, In c cells -> In a (active_axes ROps exR2) ->
      nb_homog cells (fun c => (e c - e c)%R) c (cdn a c) /\ nb_homog cells (fun c => (e c - e c)%R) c (cup a c)).
 Proof. exact convergence_nD_hyps_satisfiable. Qed.
+
+(* ---- a fourth CONVERGENCE theorem: upwind advection-diffusion on uniform Cartesian grids of ANY dimension, constant d >= 0, a constant
+   non-zero face velocity per axis (either sign), over cells where the upwind stencil has its interior form along every axis:
+   max|x_c - e_c| <= sum_a (d max|g_a''''| h_a^2/12 + |uc_a| max|g_a''| h_a/2) / k0 -- first order, with the constant. ---- *)
+From PFV Require Import ConvUpwindNDThy.
+Theorem C02_convergence_upwind_cartesian_nD : forall (m : Mesh ROps) (D u : fvar ROps) (kap x e : cvar ROps) (g : cell -> axis -> R -> R)
+  (cells : list cell) (h uc M4 M2 : axis -> R) (d k0' : R),
+  cells <> nil ->
+  (forall c a, In c cells -> In a (active_axes ROps m) -> (1 <= cidx a c <= mN ROps m a)%nat /\ signs_ok m D c a) ->
+  (forall a c, u a c = uc a) -> (forall a, In a (active_axes ROps m) -> uc a <> 0%R) ->
+  (forall a, In a (active_axes ROps m) -> (0 < h a)%R) -> (0 <= d)%R -> (0 < k0')%R -> (forall c, In c cells -> (k0' <= kap c)%R) ->
+  (forall c a, In c cells -> In a (active_axes ROps m) ->
+     is_lo a c = false /\ is_hi ROps m a c = false /\
+     mdxf ROps m a (cidx a c) = h a /\ mdxf ROps m a (pred (cidx a c)) = h a /\ mfac ROps m a c = 1%R /\
+     mA ROps m a (cidx a c) = 1%R /\ mA ROps m a (pred (cidx a c)) = 1%R /\ mW ROps m a (cidx a c) = h a /\
+     D a c = d /\ D a (cdn a c) = d) ->
+  (forall c a t k, (k <= 4)%nat -> ex_derive_n (g c a) k t) ->
+  (forall c a t, (Rabs (Derive_n (g c a) 4 t) <= M4 a)%R) -> (forall c a t, (Rabs (Derive_n (g c a) 2 t) <= M2 a)%R) ->
+  (forall c a, In c cells -> In a (active_axes ROps m) ->
+     e (cdn a c) = g c a (0 - h a)%R /\ e c = g c a 0%R /\ e (cup a c) = g c a (0 + h a)%R) ->
+  (forall c, In c cells ->
+     Lrow m D u kap x c
+     = (kap c * e c - rsuml (fun a => d * Derive_n (g c a) 2 0 - uc a * Derive_n (g c a) 1 0) (active_axes ROps m))%R) ->
+  (forall c a, In c cells -> In a (active_axes ROps m) ->
+     nb_homog cells (fun c => (x c - e c)%R) c (cdn a c) /\ nb_homog cells (fun c => (x c - e c)%R) c (cup a c)) ->
+  forall c, In c cells ->
+    (Rabs (x c - e c)
+     <= rsuml (fun a => d * (M4 a * (h a * h a) / 12) + Rabs (uc a) * (M2 a * h a / 2)) (active_axes ROps m) / k0')%R.
+Proof. exact convergence_upwind_cartesian_nD. Qed.
+Print Assumptions C02_convergence_upwind_cartesian_nD.
+(* non-vacuity: Theory/ConvUpwindNDThy.convergence_upwind_nD_hyps_satisfiable (3 x 3 Grid2D mesh, middle cell, velocity (1,1), constant field) *)
+Example C02_convergence_upwind_nD_nonvacuous_checked : True.
+Proof. pose proof convergence_upwind_nD_hyps_satisfiable. exact I. Qed.
